@@ -30,6 +30,14 @@ def forced_classes(rng, n):
     out += [(p, False, "sorted_then") for p in sp.sorted_then_sequences(False)]
     out += [(p, False, "op_sequences") for p in sp.op_sequences(False)]
     out += [(p, False, "self_join_nested") for p in sp.self_join_nested()]
+    # a calculated column whose input an earlier projection hides, then DISTINCT, then a projection dropping the calculated
+    # column (the DISTINCT has to stay on the wider rows), with the input visible as control
+    a_, b_, c_ = K(1), K(2), K(5)        # all key columns: the deduplications are inside the ColumnTag contract
+    tb = ("leaf", 1, sp.SQL, [a_, b_], [{a_: 1, b_: 10}, {a_: 1, b_: 20}, {a_: 1, b_: 20}, {a_: 2, b_: 30}], (0, None))
+    for src, keep in ((b_, [a_, c_]), (b_, [a_, b_, c_]), (a_, [a_, c_])):
+        x = ("un", ("dedup",), mp.DEFAULT, ("un", ("proj", keep), mp.DEFAULT, ("un", ("calc", c_, ("add", ("ref", src), ("lit", 1))), mp.DEFAULT, tb)))
+        out += [(("un", ("proj", [a_]), mp.DEFAULT, x), False, "calc_hidden_input"),
+                (("un", ("proj", [a_]), mp.DEFAULT, ("un", ("sel", ("cmp", "ge", ("ref", a_), ("lit", 0))), mp.DEFAULT, x)), False, "calc_hidden_input")]
     # join predicates that fold to a constant, alone and inside compounds, over operands with and without shared columns
     a, b, c = K(1), K(2), N(1)
     atom = ("cmp", "lt", ("ref", a), ("lit", 2))
